@@ -438,8 +438,14 @@ func (c *FnCtx) applyContract(st *State, v ssa.Value, callee *ssa.Function, sp *
 		}
 	}
 	// frame
-	if sp.pure || (sp.hasModifies && len(sp.modifies) == 0) {
+	if sp.pure {
 		// nothing changes
+	} else if sp.hasModifies && len(sp.modifies) == 0 {
+		// no pre-existing object changes (proved on the callee side: frame obligations);
+		// the callee may allocate: its new objects get references from a fresh range
+		nr := c.fresh("nextref", "Int")
+		c.assume(app("<=", st.nextRef, nr))
+		st.nextRef = nr
 	} else if sp.hasModifies {
 		hs, err := c.heapDesignators(callee.Pkg.Pkg, sp.modifies)
 		if err != nil || hs["*"] {
@@ -677,6 +683,7 @@ func (c *FnCtx) doAppend(st *State, v ssa.Value, cc *ssa.CallCommon, args []*Val
 	c.assume(fmt.Sprintf("(forall ((p Int)) (! (=> (and (<= (+ %s (s_len %s)) p) (< p (+ %s (s_len %s) %s))) (= (select %s p) (select %s (+ (s_off %s) (- p (+ %s (s_len %s))))))) :pattern ((select %s p))))", toff, s, toff, s, n, newArr, addArr, t, toff, s, newArr))
 	// in-place: cells outside [off+len, off+len+n) of the same array unchanged
 	c.assume(implies(and(inPlace, not(eq(n, "0"))), fmt.Sprintf("(forall ((i Int)) (! (=> (or (< i (+ (s_off %s) (s_len %s))) (>= i (+ (s_off %s) %s))) (= (select %s i) (select %s i))) :pattern ((select %s i))))", s, s, s, newLen, newArr, srcArr, newArr)))
+	c.appendAtAxioms(nh, h, hs, res, s, func(k Term) Term { return c.at(h, hs, t, k) }, n, nil)
 	c.assume(implies(eq(n, "0"), eq(nh, h)))
 	_ = es
 	c.heapSet(st, hn, hs, nh)
@@ -729,6 +736,31 @@ func (c *FnCtx) doAppendVirt(st *State, v ssa.Value, sl *types.Slice, sv *Val, e
 		c.assume(eq(app("select", newArr, app("+", toff, app("s_len", s), fmt.Sprintf("%d", k))), e.S))
 	}
 	c.assume(implies(inPlace, fmt.Sprintf("(forall ((i Int)) (! (=> (or (< i (+ (s_off %s) (s_len %s))) (>= i (+ (s_off %s) %s))) (= (select %s i) (select %s i))) :pattern ((select %s i))))", s, s, s, newLen, newArr, srcArr, newArr)))
+	var evs []Term
+	for _, e := range elems {
+		evs = append(evs, e.S)
+	}
+	c.appendAtAxioms(nh, h, hs, res, s, nil, nT, evs)
 	c.heapSet(st, hn, hs, nh)
 	c.setResult(v, c.mk(v.Type(), res))
+}
+
+// appendAtAxioms states the effect of append at the level of slice elements
+// at.H(s, i) (no index arithmetic in triggers): the result keeps the old elements,
+// then holds the added ones; slices on other arrays read the same in both heaps.
+func (c *FnCtx) appendAtAxioms(nh, h Term, hs string, res, s Term, added func(k Term) Term, n Term, elems []Term) {
+	atN := func(x, i Term) Term { return c.at(nh, hs, x, i) }
+	atO := func(x, i Term) Term { return c.at(h, hs, x, i) }
+	// prefix
+	c.assume(fmt.Sprintf("(forall ((i Int)) (! (=> (and (<= 0 i) (< i (s_len %s))) (= %s %s)) :pattern (%s)))", s, atN(res, "i"), atO(s, "i"), atN(res, "i")))
+	// added elements
+	if elems != nil {
+		for k, e := range elems {
+			c.assume(eq(atN(res, app("+", app("s_len", s), fmt.Sprintf("%d", k))), e))
+		}
+	} else if added != nil {
+		c.assume(fmt.Sprintf("(forall ((i Int)) (! (=> (and (<= (s_len %s) i) (< i (+ (s_len %s) %s))) (= %s %s)) :pattern (%s)))", s, s, n, atN(res, "i"), added(app("-", "i", app("s_len", s))), atN(res, "i")))
+	}
+	// slices backed by other arrays are unaffected
+	c.assume(fmt.Sprintf("(forall ((x Slice) (i Int)) (! (=> (not (= (s_arr x) (s_arr %s))) (= %s %s)) :pattern (%s)))", res, atN("x", "i"), atO("x", "i"), atN("x", "i")))
 }
